@@ -228,6 +228,7 @@ def _choice(stream, a, size, replace, p, op='choice'):
         if len(pf) != N:
             raise ValueError("a and p must have same size")
     ps, ts = _positions(stream, n, N, not replace, op)
+    LOG[-1]['p'] = list(pf) if p is not None else None
     if p is not None:
         e = engine()
         for q in ps:
